@@ -5,6 +5,26 @@ ROOT = os.path.dirname(os.path.dirname(os.path.abspath(__file__)))
 
 # id -> (engine, category, technique, level text, level note, design ref)
 CHECKS = {
+ "C12": ("vh-protocol", "exploration",
+         "proptest round-trip of every record kind and every request/response variant through the repository's msgpack and CBOR codecs, byte-exact differential against 72 frozen goldens in both directions, exhaustive single mutations of every golden, generated structural byte mutations, and (thorough) libFuzzer targets carrying the same oracle in-target",
+         "Round-trip, fixed-size/fixed-number tag, golden, forged-chunk-address, no-panic and decode-reencode laws held on ~2.1 M (quick) to 60 M+ (thorough) generated inputs plus exhaustive sub-enumerations (all 256 tags, every truncation offset / bit flip / tag rewrite of each golden); changes to a tag number, field order, variant name, skipped field, serialised chunk address or header bounds check are each detected in the quick tier.",
+         "Goldens are trusted as captured from the pinned tree; messages use serde via cbor4ii as libp2p's request_response::cbor codec does, codec framing is below the seam; a non-canonical 3-byte header form accepted by from_record is an explicit either-zone.",
+         "DESIGN.md §3 C12"),
+ "C13": ("vh-protocol", "exploration",
+         "proptest over honestly signed quotes with tracked single- and multi-field mutations judged by a symbolic signer/fields oracle, proof-of-payment truth tables over proofs of 0-5 quotes, wall-clock expiry with a guard band, and historical-consistency pairs",
+         "The verification truth table (quote verifies iff carried key is the claimed node's and the signature covers exactly the current fields; proof verifies iff verifier is payee and all quotes verify; expired iff older than the window or future-dated; regressing later quote flagged) held on 0.9 M (quick) to 17 M (thorough) cases covering every mutation and composition class; eight seeded weakenings are detected in the quick tier.",
+         "ed25519 unforgeability assumed; +-5 s around both expiry boundaries, sub-second timestamp changes and key-encoding aliases are not asserted; the converse (honest quote verifies) only for shapes a real client produces.",
+         "DESIGN.md §3 C13"),
+ "C07": ("vh-node", "exploration",
+         "stateful proptest histories of deliveries (paid upload / unpaid update / replicated copy) of scratchpads, transactions and registers for one owner with generated counters, signers, validity and keys against the real node; neighbouring deliveries optionally run concurrently under a generated command schedule; sequential model from the statement, overlapping pairs judged against both serial orders",
+         "Model-based checking after every delivery: stored scratchpad is owner-signed (independent BLS check) and its counter never decreases and equals the highest eligible one; transaction set / register operations equal the union of eligible valid deliveries; nothing invalid or foreign is stored; overlapping validations must be serialisable. Held-on-N-histories assurance.",
+         "Harness-owned interleaving at command granularity on one thread; payments valid by construction; a register delivery with a non-writer op is rejected as a whole.",
+         "DESIGN.md §3 C07"),
+ "C09": ("vh-node", "exploration",
+         "proptest cases over a 2-3 node ClusterSim of real nodes: generated initial store contents (missing / diverging versions), rounds of interval replication with every message delivered in a generated order through the harness transport; convergence + advertisement-completeness + non-neighbour oracle",
+         "After generated exchanges: every chunk held anywhere is held byte-identically by all neighbours, every node's list advertised every record it held and went to every neighbour, lists from strangers / self trigger nothing, mutable records converge to union / highest counter (known finding excluded by signature). Held-on-N-cases assurance.",
+         "All nodes are mutual closest peers with spare capacity and unrestricted range; 'enough rounds' = 2-4 full rounds; libp2p request/response is replaced by the harness transport.",
+         "DESIGN.md §3 C09"),
  "C06": ("vh-registers", "exploration",
          "stateful proptest over real SignedRegister/RegisterCrdt replicas: generated permission settings, op pools (authorised, unauthorised, forged, oversized, other-register, chained, dangling, hash-twin) and delivery/merge schedules with duplication and partitions, incl. a near-limit mode crossing the 1024-entry bound; oracle = acceptance predicate + set-union model + merge laws + verify()-closure + read-order independence",
          "Generated schedules against a model computed from the op specification: acceptance iff authorised/validly signed/within size for this register, merge commutative/associative/idempotent, equal accepted sets give equal ops and reads in any application order, every reachable state passes verify() on the other replicas. Held-on-N-cases assurance; 8 seeded mutations caught.",
@@ -116,6 +136,6 @@ def main():
     json.dump(m, open(os.path.join(ROOT, "MANIFEST.json"), "w"), indent=1)
     print("wrote MANIFEST.json:", len(checks), "checks,", len(na), "not claimed")
 
-HOOK_COMMITS = ["1cacaa2", "a146744", "76ca8b1"]
+HOOK_COMMITS = ["1cacaa2", "a146744", "76ca8b1", "740a190"]
 if __name__ == "__main__":
     main()
